@@ -26,7 +26,7 @@ Inductive sk_op : Set :=
 | SkRetOk | SkRetSome
 | SkKindCheck
 | SkCallPush | SkCallPop | SkIsEmpty
-| SkTryLock | SkLock | SkUnlock
+| SkTryLock | SkLock | SkUnlock | SkPushLock | SkPushUnlock
 | SkNotifyOne | SkNotifyWaiters | SkNotifiedCreate | SkNotifiedAwait | SkIfClosedLocal
 | SkCallSendDropOldest | SkCallSendDropOldestTry | SkForEachSample
 | SkRetErrClosed | SkRetEos | SkRetOkIfLockBusy | SkRetSample | SkRetErrWouldBlockIfFull.
@@ -53,6 +53,7 @@ Definition op_eqb (x y : sk_op) : bool :=
   | SkIsEmpty, SkIsEmpty | SkTryLock, SkTryLock | SkLock, SkLock | SkUnlock, SkUnlock
   | SkNotifyOne, SkNotifyOne | SkNotifyWaiters, SkNotifyWaiters | SkNotifiedAwait, SkNotifiedAwait
   | SkNotifiedCreate, SkNotifiedCreate | SkIfClosedLocal, SkIfClosedLocal
+  | SkPushLock, SkPushLock | SkPushUnlock, SkPushUnlock
   | SkCallSendDropOldest, SkCallSendDropOldest | SkCallSendDropOldestTry, SkCallSendDropOldestTry
   | SkForEachSample, SkForEachSample | SkRetErrClosed, SkRetErrClosed | SkRetEos, SkRetEos
   | SkRetOkIfLockBusy, SkRetOkIfLockBusy | SkRetSample, SkRetSample
@@ -130,18 +131,21 @@ Definition is_empty_shape : list sk_op :=
 Definition send_drop_oldest_shape : list sk_op :=
   [SkLoad SkClosed OAcquire;      (* PClosedChk *)
    SkRetErrClosed;
+   SkPushLock;                    (* PLockPush (fix 19ac498) *)
    SkCallPush;                    (* PPush (CSend1 _) _ *)
    SkNotifyOne;                   (* PNotify (CSend1 _) *)
-   SkRetOk;
+   SkRetOk;                       (* PUnlockPush RSendOk *)
    SkTryLock;                     (* PTryLock *)
-   SkRetOkIfLockBusy;
+   SkRetOkIfLockBusy;             (* PUnlockPush RSendOk *)
    SkCallPop;                     (* PPop _ _ *)
    SkCallPush;                    (* PPush (CSend2 _) _ *)
    SkNotifyOne;                   (* PNotify (CSend2 _) *)
    SkRetOk;
-   SkUnlock].                     (* PUnlock *)
+   SkUnlock;                      (* PUnlock: the pop guard is declared later, so released first *)
+   SkPushUnlock].                 (* PUnlockPush RSendOk *)
 Definition try_send_shape : list sk_op :=
-  [SkKindCheck; SkLoad SkClosed OAcquire; SkRetErrClosed; SkCallPush; SkRetErrWouldBlockIfFull; SkNotifyOne; SkRetOk].
+  [SkKindCheck; SkLoad SkClosed OAcquire; SkRetErrClosed; SkPushLock; SkCallPush; SkRetErrWouldBlockIfFull;
+   SkNotifyOne; SkRetOk; SkPushUnlock].
 Definition send_shape : list sk_op := [SkKindCheck; SkCallSendDropOldest].
 Definition send_many_shape : list sk_op := [SkForEachSample; SkKindCheck; SkCallSendDropOldestTry; SkRetOk].
 Definition source_clone_shape : list sk_op := [SkFetchAdd SkSenders ORelaxed].
@@ -165,3 +169,25 @@ Definition recv_shape : list sk_op :=
    SkIsEmpty;                     (* CRvEmptyH / CRvEmptyT *)
    SkStoreTrue SkEnded OSeqCst;   (* CRvStoreEnded2 *)
    SkRetEos].
+
+(* ---- the pipeline sample queue (src/media/pipeline.rs): same ring, flags and sender protocol;
+   the sender is not Clone (its Drop closes unconditionally: ODropTx), recv is ORecvQ *)
+Definition q_send_shape : list sk_op :=
+  [SkLoad SkClosed OAcquire; SkRetErrClosed; SkPushLock; SkCallPush; SkNotifyOne; SkRetOk; SkTryLock;
+   SkRetOkIfLockBusy; SkCallPop; SkCallPush; SkNotifyOne; SkRetOk; SkUnlock; SkPushUnlock].
+Definition q_try_send_shape : list sk_op :=
+  [SkLoad SkClosed OAcquire; SkRetErrClosed; SkPushLock; SkCallPush; SkNotifyOne; SkRetOk;
+   SkRetErrWouldBlockIfFull; SkPushUnlock].
+Definition q_drop_shape : list sk_op := [SkStoreTrue SkClosed ORelease; SkNotifyWaiters].
+Definition q_recv_shape : list sk_op :=
+  [SkLock;                        (* CQLock *)
+   SkLoad SkClosed OAcquire;      (* CQClosed1: before the pop (fix dc21402) *)
+   SkCallPop;                     (* CQPop _ *)
+   SkRetSample;                   (* CQUnlockRet *)
+   SkIfClosedLocal;
+   SkRetEos;                      (* CQUnlockEos *)
+   SkUnlock;                      (* CQUnlockWait *)
+   SkNotifiedCreate;              (* CQCreate *)
+   SkIsEmpty;                     (* CQEmptyH / CQEmptyT *)
+   SkLoad SkClosed OAcquire;      (* CQClosed2 *)
+   SkNotifiedAwait].              (* CQAwait / CQWaiting *)
